@@ -80,6 +80,8 @@ def handle (op : String) (j : Json) : Option (Except String Json) :=
   | "st_git_quote" => some do
       let bs ← natList (← j.getObjVal? "bytes")
       pure (jObj [("text", jStr (gitQuote bs))])
+  | "st_unescape" => some do
+      pure (jObj [("text", jStr (unescapeGitPath (← getStrField j "text")))])
   | "st_for_commit" => some do
       let ign ← ignOf j
       let log ← logOf j
